@@ -143,7 +143,7 @@ func main() {
 	case "codec":
 		res, err = cmdCodec(*prop, *n, *seed, *driver, *out)
 	case "forms":
-		res, err = cmdForms(*prop, *n, *seed, *driver, *out)
+		res, err = cmdForms(*prop, *n, *seed, *driver, *out, *corpus)
 	case "perturb":
 		res, err = cmdPerturb(*prop, *n, *seed, *driver, *out)
 	case "history":
